@@ -91,7 +91,7 @@ def run(chk: Check) -> None:
     rng = chk.rng
     n = 1 if tier == "quick" else 10
     gen_docs.AVOID = set(AVOID_MAIN)
-    docs = [gen_docs.gen_doc(rng) for _ in range(300 * n)]
+    docs = [gen_docs.gen_doc(rng) for _ in range(300 * n)] + gen_docs.systematic_docs()
     gen_docs.AVOID = set()
     optsets = all_option_sets(rng, len(docs))
     cases = [{"doc": d, "opts": o} for d, o in zip(docs, optsets)]
